@@ -30,6 +30,7 @@ type e2eReq struct {
 	body                       []byte
 	te                         []string
 	custom                     []string
+	cookie                     []string
 }
 
 type e2eServer struct {
@@ -53,8 +54,13 @@ func newE2EServer() *e2eServer {
 		es.mu.Lock()
 		seq := r.Header.Get("X-Vegeta-Seq")
 		es.reqs[seq] = append(es.reqs[seq], e2eReq{method: r.Method, path: r.URL.Path, host: r.Host, attack: strings.Join(r.Header["X-Vegeta-Attack"], ","),
-			body: body, te: append([]string(nil), r.TransferEncoding...), custom: r.Header["X-E2e"]})
+			body: body, te: append([]string(nil), r.TransferEncoding...), custom: r.Header["X-E2e"], cookie: append([]string(nil), r.Header["Cookie"]...)})
 		es.mu.Unlock()
+		// headers a stateful client would act upon (hit must not: every exchange stands for itself)
+		w.Header().Add("Set-Cookie", "sid=31337; Path=/")
+		w.Header().Add("Set-Cookie", "theme=dark; Path=/; Max-Age=3600")
+		w.Header().Set("Set-Cookie2", "sid2=7; Version=1; Path=/")
+		w.Header().Set("Alt-Svc", `h2=":443"; ma=3600`)
 		parts := strings.Split(strings.Trim(r.URL.Path, "/"), "/")
 		n := 0
 		if len(parts) == 2 {
@@ -137,7 +143,8 @@ type e2eRun struct {
 	maxBody   int // -1 unlimited
 	attack    string
 	chunked   bool
-	redirects int // as given to -redirects (10 = default)
+	redirects int  // as given to -redirects (10 = default)
+	cookie    bool // the target has its own header `Cookie: lang=en`
 }
 
 func runE2E(c *run.Ctx, s *kit.Summary) {
@@ -147,6 +154,7 @@ func runE2E(c *run.Ctx, s *kit.Summary) {
 	}
 	es := newE2EServer()
 	defer es.srv.Close()
+	runRealSession(s, es)
 	runs := []e2eRun{
 		{name: "maxbody10_name_chunked", args: []string{"-max-body", "10", "-name", "e2e-a", "-chunked"}, path: "/b/1000", method: "POST", body: "payload", maxBody: 10, attack: "e2e-a", chunked: true, redirects: 10},
 		{name: "defaults_follow3", args: nil, path: "/r/3", method: "GET", maxBody: -1, redirects: 10},
@@ -180,7 +188,15 @@ func runE2E(c *run.Ctx, s *kit.Summary) {
 				Input:    map[string]interface{}{"e2e": rn.name, "args": rn.args, "path": rn.path, "method": rn.method, "body": rn.body},
 				Expected: exp, Observed: obs, Key: map[string]interface{}{"e2e": rn.name}})
 		}
-		tgt := fmt.Sprintf(`{"method":%q,"url":%q,"header":{"X-E2e":["yes","twice"]}`, rn.method, es.srv.URL+rn.path)
+		rn.cookie = rn.cookie || len(rn.name)%2 == 0 // about half of the runs: the target brings its own Cookie header
+		hdr := `{"X-E2e":["yes","twice"]}`
+		if rn.cookie {
+			hdr = `{"X-E2e":["yes","twice"],"Cookie":["lang=en"]}`
+		}
+		if rn.cookie {
+			s.Count("e2e:target_with_cookie_header")
+		}
+		tgt := fmt.Sprintf(`{"method":%q,"url":%q,"header":%s`, rn.method, es.srv.URL+rn.path, hdr)
 		if rn.body != "" {
 			tgt += fmt.Sprintf(`,"body":%q`, base64.StdEncoding.EncodeToString([]byte(rn.body)))
 		}
@@ -323,6 +339,14 @@ func runE2E(c *run.Ctx, s *kit.Summary) {
 			if strings.Join(first.custom, ",") != "yes,twice" {
 				viol("cli_target_header", "target header values did not reach the server", "yes,twice", strings.Join(first.custom, ","))
 			}
+			// the target's own Cookie header arrives as given, whatever earlier responses of this attack
+			// asked a stateful client to remember; a Cookie header the target does not have is only noted
+			// (the text does not say "nothing else")
+			if rn.cookie && strings.Join(first.cookie, "|") != "lang=en" {
+				viol("cli_target_header", "the target's Cookie header did not reach the server as given (a later hit of the same attack)", "lang=en", strings.Join(first.cookie, "|"))
+			} else if !rn.cookie && len(first.cookie) > 0 {
+				s.Count("note:e2e_cookie_header_beyond_target")
+			}
 			isChunked := len(first.te) == 1 && first.te[0] == "chunked"
 			if rn.body != "" && isChunked != rn.chunked {
 				s.Count("note:e2e_transfer_encoding_differs_from_chunked_flag") // the text says nothing about the encoding
@@ -341,6 +365,61 @@ func runE2E(c *run.Ctx, s *kit.Summary) {
 		}
 		s.CountN("e2e:results", n)
 	}
+}
+
+// runRealSession: several hits of ONE attacker with its own http.Client (no Client option) against the
+// real server, whose responses (final and redirect hops) carry Set-Cookie, Set-Cookie2 and Alt-Svc:
+// every later request must still have the target's headers as given.
+func runRealSession(s *kit.Summary, es *e2eServer) {
+	atk := vegeta.NewAttacker(vegeta.Timeout(5*time.Second), vegeta.KeepAlive(false))
+	va := vegeta.VerifNewAttack("session", time.Now(), 0)
+	type tg struct {
+		path   string
+		cookie []string
+	}
+	tgs := []tg{{"/c/10", nil}, {"/c/10", []string{"lang=en"}}, {"/r/2", []string{"lang=en", "a=b"}}, {"/c/10", nil}, {"/r/1", nil}, {"/s/404", []string{"lang=en"}}, {"/c/10", []string{"sid=mine"}}}
+	var sofar []string
+	for i, t := range tgs {
+		s.Count("session:hits_of_one_attacker_real_transport")
+		s.Case(fmt.Sprint("session:", i), true)
+		sofar = append(sofar, t.path)
+		var res *vegeta.Result
+		kit.Recover(func() {
+			res = atk.VerifHit(func(x *vegeta.Target) error {
+				x.Method, x.URL = "GET", es.srv.URL+t.path
+				x.Header = http.Header{"X-E2e": {"yes", "twice"}}
+				if t.cookie != nil {
+					x.Header["Cookie"] = append([]string(nil), t.cookie...)
+				}
+				return nil
+			}, va)
+		})
+		if res == nil {
+			continue
+		}
+		es.mu.Lock()
+		seen := es.reqs[strconv.FormatUint(res.Seq, 10)]
+		es.mu.Unlock()
+		if len(seen) == 0 {
+			continue
+		}
+		first := seen[0]
+		if t.cookie != nil && strings.Join(first.cookie, "|") != strings.Join(t.cookie, "|") {
+			s.Violate(kit.Violation{Kind: "req_header_case", What: "a later hit of the same attacker: the target's Cookie header did not reach the transport with its original values",
+				Input:    map[string]interface{}{"e2e": "session", "hits_so_far": sofar, "target_cookie": t.cookie},
+				Expected: strings.Join(t.cookie, "|"), Observed: strings.Join(first.cookie, "|"), Key: map[string]interface{}{"e2e": "session", "hit": i}})
+		} else if t.cookie == nil && len(first.cookie) > 0 {
+			s.Count("note:session_cookie_header_beyond_target")
+		}
+		if strings.Join(first.custom, ",") != "yes,twice" {
+			s.Violate(kit.Violation{Kind: "req_header_case", What: "a later hit of the same attacker: a target header did not reach the transport with its original values",
+				Input: map[string]interface{}{"e2e": "session", "hits_so_far": sofar}, Expected: "yes,twice", Observed: strings.Join(first.custom, ","),
+				Key: map[string]interface{}{"e2e": "session", "hit": i}})
+		}
+	}
+	es.mu.Lock()
+	es.reqs = map[string][]e2eReq{}
+	es.mu.Unlock()
 }
 
 func clip(s string, n int) string {
